@@ -22,15 +22,24 @@ SPEC = dict(
              'Lean proves for ALL arguments and states that each regenerated method equals the hand model operation (c06_src_store, c06_src_load: same decision to raise, '
              'same state afterwards, same value); hence c06_src_bits_exact, c06_src_store_load, c06_src_preload_eq_load state the property theorems of the regenerated methods. '
              'A source change of these methods breaks a proof obligation (then the failing-input search replays the differing operation through the oracle). '
-             'Still hand model + differential testing: store_snake_bytes / load_snake_bytes / store_snake_string, the str and TvmBitarray argument forms of store_bit / store_bits, '
-             'Address(str) parsing, the HashMap parse behind load_dict (C09). Seeded scripts run on the library and on the compiled model, and '
+             'THE SNAKE METHODS TOO: Builder.store_snake_bytes / store_snake_string and Slice.load_snake_bytes / load_snake_string are re-translated on every run '
+             '(Generated/SnakeOps.lean: the iterative code as it is - head bytes, then a for loop over reversed(range(0, len(rest), 127)) with the loop-carried tail cell; '
+             'the reader a `while True` over a cursor that starts as an alias of self, with a declared iteration bound) and proved equal to the RECURSIVE hand model for every byte '
+             'string, every builder state and every slice state with ref_offset <= len(refs) (c06_src_snake); so c06_src_snake_store_iff (returns iff chain depth <= 1024), '
+             'c06_src_snake_depth_exact (root depth exactly the closed form, end_cell iff <= 1023, regenerated load gives the bytes back) and c06_src_snake_roundtrip '
+             '(depth <= 1023: store, end_cell, begin_parse, load_snake_bytes = the bytes; beyond: no cell comes out) are theorems about the regenerated code; '
+             'c06_src_preload_ref_offset: preload_ref(offset) for every offset. '
+             'Still hand model + differential testing: the str / TvmBitarray / iterable argument forms of store_bit / store_bits, '
+             'store_address(str) (Address(str) parsing), the HashMap parse behind load_dict (C09). Seeded scripts run on the library and on the compiled model, and '
              'each script is also checked on the library alone against an independent Python TL-B encoder, peek/load round trip and leftovers.',
         level_note='Proved for all inputs: the statements above, about Model/Builder.lean, and the equality of the regenerated methods with that model. Trusted for the '
                    'regenerated part: the translator pymeth.py (+ pyobj/pybytes/pyarith expression rules), the declared interface in harness/translate/bsops.py (attribute types, '
                    'property aliases, constructors of Address / ExternalAddress / Slice, a str travels as its UTF-8 bytes, HashMap.parse is a function of the referenced cell, '
                    'the cell constructor is a parameter assumed to build reference-free cells) and lean/TonVerif/PyBits.lean (meaning of int2ba, ba2int, bitarray indexing / '
-                   'slice deletion / append); all validated on every change by Lean evaluation of the regenerated methods = the library on ~400 op scripts. Only sampled: that the '
-                   'remaining methods (snake, argument forms, Address(str)) behave as the model (correspondence on generated scripts; str.encode/decode are '
+                   'slice deletion / append; for the snake methods also Py.forL / whileS / bindA / rangeStep and the declared reading of <cell>.begin_parse() as `view`, '
+                   'of end_cell\'s Cell(..) as the parameter `mk`, of a None passed where a cell is declared as a raise, and the iteration bound `fuel`); '
+                   'all validated on every change by Lean evaluation of the regenerated methods = the library on ~650 op scripts. Only sampled: that the '
+                   'remaining forms (argument forms of store_bit / store_bits, Address(str)) behave as the model (correspondence on generated scripts; str.encode/decode are '
                    'assumed as modelled). Not modelled: load_dict parses the referenced HashMap (C09), str<->UTF-8, Python recursion limit for very '
                    'long snake chains. Trusted: Spec/TlbPrim.lean + Spec/TlbVal.lean say what TL-B says; Lean kernel; harness/gen/scripts.py.',
         technique='Lean 4 proof (hand model, OpSpec calculus + closed forms of the slice reads) + differential correspondence with the library '
